@@ -84,6 +84,10 @@ def gen_spec(rng, behaviours=False, allow_pyproject=True):
     }
     if rng.random() < 0.2:
         spec["marker_extra"] = {":python_version < '3'": ["futures"]}
+    if rng.random() < 0.2:
+        spec["nested_setup"] = True
+    if rng.random() < 0.12:
+        spec["latin1"] = True          # a legal setup.py that is not UTF-8 (coding line + accented author name)
     if behaviours:
         spec["prelude"] = rng.sample(sorted(BEHAVIOURS), rng.randint(0, 4))
         spec["postlude"] = rng.sample(sorted(BEHAVIOURS), rng.choice([0, 0, 1]))
@@ -238,6 +242,11 @@ def files_of(spec):
         "sub/keep.txt": "x\n",
         "src/inner_mod.py": "X = 1\n",
     }
+    if spec.get("nested_setup"):
+        # a second project below this one (examples/, bindings/python/ ...), listed before the project's own files
+        f["examples/demo/setup.py"] = ("from setuptools import setup\nsetup(name='nested-example', version='0.0.9', "
+                                      "install_requires=['only-the-example-needs-this<1'])\n")
+        f["examples/demo/setup.cfg"] = "[metadata]\nname = nested-example\nversion = 0.0.9\n"
     style = spec["style"]
     if style == "pyproject":
         f["pyproject.toml"] = _pyproject(spec)
@@ -252,6 +261,13 @@ def top_name(spec):
     return "%s-%s" % (spec["name"], spec["version"])
 
 
+def _data(spec, rel, text):
+    """file content as bytes: setup.py may be written in another source encoding (declared by its coding line)"""
+    if rel == "setup.py" and spec.get("latin1"):
+        return ("# -*- coding: latin-1 -*-\nAUTHOR = 'Jos\xe9 M\xfcller'\n" + text).encode("latin-1")
+    return text.encode("utf-8")
+
+
 def materialise(spec, root, packaging):
     """-> path to hand to extract_metadata"""
     files = files_of(spec)
@@ -261,8 +277,8 @@ def materialise(spec, root, packaging):
         for rel, text in files.items():
             full = os.path.join(base, rel)
             os.makedirs(os.path.dirname(full), exist_ok=True)
-            with io.open(full, "w", encoding="utf-8", newline="\n") as fh:
-                fh.write(text)
+            with io.open(full, "wb") as fh:
+                fh.write(_data(spec, rel, text))
         if spec.get("abs_symlink"):
             # a link with an absolute target into the project itself (as `ln -s $PWD/sub pkglink` leaves it)
             os.symlink(os.path.join(base, "sub"), os.path.join(base, "pkglink"))
@@ -281,7 +297,7 @@ def materialise(spec, root, packaging):
                         ti.mode = 0o755
                         tf.addfile(ti)
                     dirs.add(d)
-                data = files[rel].encode("utf-8")
+                data = _data(spec, rel, files[rel])
                 ti = tarfile.TarInfo(top + "/" + rel)
                 ti.size = len(data)
                 ti.mode = 0o644
@@ -291,7 +307,7 @@ def materialise(spec, root, packaging):
         path = os.path.join(root, top + ".zip")
         with zipfile.ZipFile(path, "w") as zf:
             for rel in sorted(files):
-                zf.writestr(top + "/" + rel, files[rel])
+                zf.writestr(top + "/" + rel, _data(spec, rel, files[rel]))
         return path
     raise ValueError(packaging)
 
